@@ -491,6 +491,11 @@ Definition dec_msg (o : obs) : option msg :=
       | Some q => Some {| m_id := id; m_flags := fl; m_ednsflags := ef; m_question := q |}
       | None => None
       end
+  | L [I id; I fl; I ef; L q; I _tsig_key] =>   (* which TSIG key signs the query: implementation side only *)
+      match dec_list dec_qent q with
+      | Some q => Some {| m_id := id; m_flags := fl; m_ednsflags := ef; m_question := q |}
+      | None => None
+      end
   | _ => None
   end.
 
